@@ -453,7 +453,7 @@ def case_strategy():
     return st.builds(build, st.lists(_chunk(), min_size=1, max_size=6), window, style)
 
 
-LONG_LENGTHS = (250, 253, 255, 256, 64006, 64007, 64008, 64009, 64010, 65535, 65536, 70001)
+LONG_LENGTHS = (250, 253, 255, 256, 1023, 1024, 4095, 4096, 4097, 8192, 64006, 64007, 64008, 64009, 64010, 65535, 65536, 70001)
 
 
 def long_chunk_cases():
@@ -462,14 +462,18 @@ def long_chunk_cases():
     out = []
     for L in LONG_LENGTHS:
         for kind, text in (("fixed", "a" * L), ("efixed", "b" * (L - 1) + "c"), ("string", "x\u00ff" * (L // 2))):
-            chunks = [[["short", 300]], [["char", 7], [kind, text]], [["int", 123456], ["fixed", "tail"]], [["three", 9]]]
-            full = [[len(ch), []] for ch in chunks]
-            under = [[len(chunks[0]), [["int"]]], [1, []], [len(chunks[2]), [["short"], ["string"]]], [1, []]]
-            for win in (None, [3, 4, 1]):
-                case = {"chunks": chunks, "plans": [full, under]}
-                if win:
-                    case["window"] = win
-                out.append(case)
+            for third, fourth in (([["int", 123456], ["fixed", "tail"]], [["three", 9]]),
+                                  ([], [["three", 9], ["string", "end"]]),       # an empty chunk just before the last one
+                                  ([["int", 123456]], [])):                      # the data ends with a break byte
+                chunks = [[["short", 300]], [["char", 7], [kind, text]], third, fourth]
+                full = [[len(ch), []] for ch in chunks]
+                under = [[len(chunks[0]), [["int"]]], [1, []], [len(chunks[2]), [["short"], ["string"]]],
+                         [min(1, len(chunks[3])), []]]
+                for win in (None, [3, 4, 1]):
+                    case = {"chunks": chunks, "plans": [full, under]}
+                    if win:
+                        case["window"] = win
+                    out.append(case)
     return out
 
 
